@@ -1,6 +1,7 @@
 package rules
 
 import (
+	"go/token"
 	"fmt"
 	"golang.org/x/tools/go/ssa"
 	"os"
@@ -233,6 +234,76 @@ func checkC04(p *core.Program, r *core.Report) {
 	fsmTerminalRules(fr, r, R3, R4)
 	r.Floor(R3, 4)
 	r.Floor(R4, 4)
+
+	// R5: the state setter reports every change upward, with this connection's SKI and the new state
+	const R5 = "C04.R5 every-change-reported"
+	r.Rule(R5, "in the function that stores the handshake state from its parameter, every path on which old != new invokes HandleShipHandshakeStateUpdate(remoteSKI, {State: new})")
+	nset := 0
+	for _, fn := range p.FuncsOf("ship") {
+		var store ssa.Instruction
+		var param ssa.Value
+		core.EachInstr(fn, func(in ssa.Instruction) {
+			if fld, _, v := core.StoredField(in); fld == f.fState {
+				if pa, ok := core.Canon(v).(*ssa.Parameter); ok {
+					store, param = in, pa
+				}
+			}
+		})
+		if store == nil {
+			continue
+		}
+		nset++
+		name := shortFn(p.FnName(fn))
+		sameEdge := func(b *ssa.BasicBlock, idx int) bool { // edge asserting old == new
+			i := core.BlockIf(b)
+			if i == nil {
+				return false
+			}
+			v, truth := core.Truth(i.Cond, idx)
+			bo, ok := v.(*ssa.BinOp)
+			if !ok || (bo.Op != token.EQL && bo.Op != token.NEQ) {
+				return false
+			}
+			if core.Canon(bo.X) != param && core.Canon(bo.Y) != param {
+				return false
+			}
+			return truth == (bo.Op == token.EQL)
+		}
+		isReport := func(in ssa.Instruction) bool {
+			if !core.IsInvokeOf(in, f.mUpd) {
+				return false
+			}
+			c := core.Common(in)
+			if fl, _ := core.LoadedField(c.Args[0]); fl != f.fSKI {
+				return false
+			}
+			// second argument: a ShipState whose State field was stored from the parameter
+			okState := false
+			if u, ok := c.Args[1].(*ssa.UnOp); ok {
+				if al, ok := u.X.(*ssa.Alloc); ok {
+					for _, ref := range *al.Referrers() {
+						if fa, ok := ref.(*ssa.FieldAddr); ok && core.FieldVar(fa).Name() == "State" {
+							for _, r2 := range *fa.Referrers() {
+								if st, ok := r2.(*ssa.Store); ok && core.Canon(st.Val) == param {
+									okState = true
+								}
+							}
+						}
+					}
+				}
+			}
+			return okState
+		}
+		key := "setter " + name + " reports changes"
+		if bad := core.PathSearch(fn, store, core.IsReturn, isReport, sameEdge); bad != nil {
+			r.Fail(R5, key, p.Pos(bad.Pos()), "a path changes the handshake state without reporting HandleShipHandshakeStateUpdate(remoteSKI, new state): the reported state sequence (and the pairing state the hub derives from it) misses transitions")
+		} else {
+			r.OK(R5, key, p.Pos(store.Pos()), "every change is reported with the connection's SKI and the new state")
+		}
+	}
+	if nset == 0 {
+		r.Fail(R5, "state setter", "", "no function stores the handshake state from a parameter")
+	}
 }
 
 func sortedKeys[T any](m map[string]T) []string {
@@ -306,6 +377,21 @@ func checkC01(p *core.Program, r *core.Report) {
 		}
 		switch e.kind {
 		case "setup":
+			for _, fn := range p.FuncsOf("ship") {
+				core.EachInstr(fn, func(in ssa.Instruction) {
+					if !core.IsInvokeOf(in, f.mSetup) {
+						return
+					}
+					c := core.Common(in)
+					fl, _ := core.LoadedField(c.Args[0])
+					k2 := "setup arguments in " + shortFn(p.FnName(fn))
+					if fl == f.fSKI && len(fn.Params) > 0 && core.Canon(c.Args[1]) == ssa.Value(fn.Params[0]) {
+						r.OK(R2, k2, p.Pos(in.Pos()), "SetupRemoteDevice(remoteSKI, this connection)")
+					} else {
+						r.Fail(R2, k2, p.Pos(in.Pos()), "the setup callback is not given (this connection's SKI, this connection as writer): a device is set up under another identity")
+					}
+				})
+			}
 			key := "setup in " + shortFn(e.fn)
 			if len(states) == 1 && states["SmeStateApproved"] {
 				r.OK(R2, key, p.Pos(e.pos), "only at state Approved")
